@@ -394,7 +394,7 @@ func clip(s string) string {
 func genDiffTexts(seed int64, n int) []*diffCase {
 	r := rand.New(rand.NewSource(seed))
 	word := func() string {
-		return []string{"alpha", "beta", "gamma", "", " ", "x", "y", "z", "- dash", "+ plus", "@@ -1 +1 @@", "  indented", "two  spaces", "\xff\xfe", "é", "same", "same", "same"}[r.Intn(18)]
+		return []string{"alpha", "beta", "gamma", "", " ", "x", "y", "z", "- dash", "+ plus", "@@ -1 +1 @@", "  indented", "two  spaces", "100%", "%d items %s", "a%20b%", "\xff\xfe", "é", "same", "same", "same"}[r.Intn(18)]
 	}
 	text := func(n int) []string {
 		ls := make([]string, n)
@@ -431,8 +431,10 @@ func genDiffTexts(seed int64, n int) []*diffCase {
 			a = text(11 + r.Intn(20)) // hunk headers
 		case 1:
 			a = text(201 + r.Intn(60)) // popular-line heuristic
-			for k := 0; k < len(a); k += 2 {
-				a[k] = "popular"
+			for k := 0; k < len(a); k++ {
+				if k%2 == 0 || r.Intn(3) == 0 { // runs of the popular line occur
+					a[k] = "popular"
+				}
 			}
 		case 2:
 			a = text(1 + r.Intn(7))
@@ -445,6 +447,16 @@ func genDiffTexts(seed int64, n int) []*diffCase {
 			}
 		}
 		b := mutate(a)
+		if i%5 == 1 && i%2 == 1 {
+			// a single changed line directly before a run of popular lines
+			b = append([]string{}, a...)
+			for k := 1; k+2 < len(b); k++ {
+				if b[k] == "popular" && b[k+1] == "popular" {
+					b[k] = "changed before a popular run"
+					break
+				}
+			}
+		}
 		if i%7 == 0 {
 			b = append([]string{}, a...) // identical
 		}
